@@ -150,6 +150,7 @@ extern int mpt_notify_clear(MPT_STRUCT(notify) *no, int file)
 		*base = 0;
 		if ((buf = no->_wait._buf)) {
 			size_t i, len = buf->_used / sizeof(*base);
+			base = (void *) (buf + 1);
 			for (i = 0; i < len; ++i) {
 				if (base[i] == curr) {
 					base[i] = 0;
